@@ -30,3 +30,15 @@ add("C11",
     "Generated-input search over parseable texts x indent widths 1..8 for exceptions, token/IR changes, unparseable output, non-idempotence and self-check disagreement; ~3*10^3 (quick) to ~3*10^5 (thorough) (text,width) cases.",
     "Trusts: tokenizer/parser/module_ir.build_ir as the meaning of 'parses to the same module' (they are checked by C10/C09/C08).",
     "DESIGN.md §4 C11")
+
+add("C17",
+    "metamorphic/differential property-based testing over schedules: generated and literal source sets compiled in fresh subprocesses under 6-8 PYTHONHASHSEEDs x batch orders x repetition, a Hypothesis RuleBasedStateMachine for in-process histories, and a CLI sample (embossc vs front|back, swapped import dirs); oracle = byte equality",
+    "Searches for any dependence of diagnostics, IR JSON or header on hash seed, batch order, repetition, import-dir order or process split, over ~150 (quick) to ~700 (thorough) source sets x 8-10 schedules plus stateful histories; cannot exclude dependence on seeds/inputs not tried.",
+    "Trusts: equality of formatted strings; anonymous-field numbering is canonicalised only where several modules share a process (as the property allows).",
+    "DESIGN.md §4 C17")
+
+add("C18",
+    "round-trip property-based testing: IRs of corpus, accepted corpus mutations and generated modules at every stop_before_step through to_json/from_json with ==, a type-strict field walker, re-serialisation and header equality; CLI two-program path vs embossc on a sample",
+    "Checks from_json(to_json(ir)) == ir (also type-strictly), to_json idempotence and header(ir) == header(reread ir) for ~10^3 (quick) to ~10^4 (thorough) IRs incl. all intermediate pipeline stages; the two real programs are compared with embossc on a sample.",
+    "Trusts: the IR classes' own == (cross-checked by an independent walker over field specs); corpus + generators as the space of 'IRs the front end produces'.",
+    "DESIGN.md §4 C18")
